@@ -258,8 +258,10 @@ pub fn stub_create_mmap<T>(_path: &Path, _config: &MmapVecConfig) -> zipora::err
     assert!(a.size() == MAP_SIZE && a.as_ptr::<u8>() == p, "fabricated MmapAllocation layout");
     Ok(a)
 }
-/// Stub for the private `MmapVec::backing_file_len` (std::fs::metadata is a syscall): the modelled
-/// file has exactly FILE_LEN bytes.
+/// Stub for the private `MmapVec::backing_file_len` (std::fs::metadata is a syscall): the modelled file has
+/// exactly FILE_LEN bytes. (Stubbing `std::fs::metadata` itself was measured 8x more expensive: the
+/// `io::Result<Metadata>` error path is explored. This module is feature-isolated, so a change that
+/// removes the helper breaks only the C19 check's build, which is reported as such.)
 pub fn stub_backing_file_len<T>(_path: &Path) -> zipora::error::Result<u64> {
     Ok(FILE_LEN as u64)
 }
